@@ -2279,7 +2279,13 @@ class unyt_array(np.ndarray):
         np_ret = super().__reduce__()
         obj_state = np_ret[2]
         units = self.units
-        unit_meta = (str(units), units.registry.lut)
+        unit_str = str(units)
+        if units.expr == 1:
+            # str() names the unit of a ratio "dimensionless", which parses
+            # to the *symbol* of that name: an equal unit, but products and
+            # powers of it are spelled (and hashed) differently
+            unit_str = "1"
+        unit_meta = (unit_str, units.registry.lut)
         # The unit is restored by looking its string up in the pickled
         # registry. A unit created before its registry was edited keeps the
         # value it had then, which the table no longer implies: pickle that
